@@ -835,6 +835,10 @@ def annotated_loop(ex, node, spec, it=None):
         elif isinstance(it, tuple):
             n = len(it)
             elem = lambda k: N.getitem(ex, it, k)  # noqa
+        elif it.__class__.__name__ == 'CountVal':
+            n = ex.fresh_int('count!inf', 0, None)      # no upper bound: the loop only ends by break/raise
+            elem = lambda k: mk_int(zint(it.start) + zint(k) * zint(it.step))  # noqa
+            ex.ghost['infinite_iter'] = True
         else:
             raise Unsupported('annotated for over %r' % (it,))
         fr.locals[spec.index] = 0
@@ -883,7 +887,9 @@ def annotated_loop(ex, node, spec, it=None):
     if ex.check() == z3.unsat:
         raise PathEnd()
     # 4. guard
-    if is_for:
+    if is_for and it.__class__.__name__ == 'CountVal':
+        cond = True
+    elif is_for:
         cond = mk_bool(zint(k) < zint(n))
     else:
         cond = ex.truth(ex.eval(node.test))
@@ -916,7 +922,7 @@ def annotated_loop(ex, node, spec, it=None):
         v1 = eval_clause(ex, spec.decreases, fr.locals, mod, fr.env)
         ex.oblige('%s/decreases' % tag, mk_bool(z3.And(zint(v0) >= 0, zint(v1) < zint(v0))),
                   detail=spec.decreases)
-    elif not is_for:
+    elif not is_for or it.__class__.__name__ == 'CountVal':
         ex.notes.append('%s: no variant given, termination of this loop is not proved' % tag)
     raise PathEnd()
 
